@@ -59,7 +59,8 @@ class RegionExtract(Harness):
     functions = [RH + "write_to_genbank", RH + "_build_base_record", RH + "_build_record_from_cross_origin", RH + "_adjust_features",
                  RH + "_adjust_protocluster", RH + "_build_annotations",
                  "antismash.common.secmet.locations:offset_location", "antismash.common.secmet.record:Record.to_biopython"]
-    bound = ("one region made of one protocluster (core inside extent) in a single candidate cluster, optionally a subregion, one gene "
+    bound = ("one region made of one protocluster (core inside extent) in a single candidate cluster, optionally a subregion, or of a "
+             "subregion alone, one gene "
              "inside the core; region simple or origin-spanning; symbolic coordinates and record length; the record-wide numbers of the "
              "protocluster / candidate cluster / subregion are symbolic (any region of any record)")
     outside = "GenBank text (seqio.write is captured, SeqRecord slicing is modelled on the feature table); several candidates per region; CDS motifs"
@@ -71,6 +72,8 @@ class RegionExtract(Harness):
         # an origin-spanning gene (either strand) inside an origin-spanning region; a prepeptide-style motif with leader location
         out += [{"shape": "o", "sub": False, "gene": "o", "gstrand": st, "motif": False} for st in (1, -1)]
         out += [{"shape": sh, "sub": False, "gene": "s", "gstrand": 1, "motif": True} for sh in ("s", "o")]
+        # a region made of a subregion alone (no candidate cluster, no protocluster), with any record-wide number
+        out += [{"shape": sh, "sub": False, "subonly": True, "gene": "s", "gstrand": 1, "motif": False} for sh in ("s", "o")]
         return out
 
     def vars(self, var):
@@ -109,17 +112,22 @@ class RegionExtract(Harness):
         gene = DummyCDS(location=build("g", var["gene"], v, var["gstrand"]), locus_tag="gene", translation="A")
         rec.add_cds_feature(gene)
         core, ext = build("c", "s", v), build("e", var["shape"], v)
-        proto = Protocluster(core, ext, tool="test", product="prod", cutoff=1, neighbourhood_range=0, detection_rule="r")
-        rec.add_protocluster(proto)
-        cand = CandidateCluster(CandidateClusterKind.SINGLE, [proto], circular_wrap_point=n if circ else None)
-        rec.add_candidate_cluster(cand)
+        proto = cand = None
+        if var.get("subonly"):
+            rec.add_subregion(SubRegion(ext, tool="test"))
+        else:
+            proto = Protocluster(core, ext, tool="test", product="prod", cutoff=1, neighbourhood_range=0, detection_rule="r")
+            rec.add_protocluster(proto)
+            cand = CandidateCluster(CandidateClusterKind.SINGLE, [proto], circular_wrap_point=n if circ else None)
+            rec.add_candidate_cluster(cand)
         if var["sub"]:
             rec.add_subregion(SubRegion(build("r", "s", v), tool="test"))
         rec.create_regions()
         region = rec.get_regions()[0]
         # this region may be any region of any record: its areas carry arbitrary record-wide numbers
-        rec._protocluster_numbering[proto] = 1 + v["kp"]
-        rec._candidate_clusters_numbering[cand] = 1 + v["kc"]
+        if proto is not None:
+            rec._protocluster_numbering[proto] = 1 + v["kp"]
+            rec._candidate_clusters_numbering[cand] = 1 + v["kc"]
         for sub in rec.get_subregions():
             rec._subregion_numbering[sub] = 1 + v["ks"]
         bio = rec.to_biopython()
@@ -179,6 +187,9 @@ class RegionExtract(Harness):
         cl = [("extract_has_the_region_length", out["len"] == rlen)]
         orig = {"CDS": model_parts("g", var["gene"], v), "protocluster": ext, "proto_core": model_parts("c", "s", v),
                 "cand_cluster": ext, "region": ext}
+        subonly = bool(var.get("subonly"))
+        if subonly:
+            orig = {"CDS": orig["CDS"], "subregion": ext, "region": ext}
         if var["sub"]:
             orig["subregion"] = model_parts("r", "s", v)
         seen = [f["type"] for f in out["features"]]
@@ -195,10 +206,10 @@ class RegionExtract(Harness):
             if f["protoclusters"] is not None:
                 cl.append(("candidate_refers_to_renumbered_protoclusters", L.And(len(f["protoclusters"]) == 1, [p == 1 for p in f["protoclusters"]])))
             if f["candidate_cluster_numbers"] is not None:
-                cl.append(("region_refers_to_renumbered_candidates", L.And(len(f["candidate_cluster_numbers"]) == 1,
+                cl.append(("region_refers_to_renumbered_candidates", L.And(len(f["candidate_cluster_numbers"]) == (0 if subonly else 1),
                                                                        [c == 1 for c in f["candidate_cluster_numbers"]])))
             if f["subregion_numbers"] is not None:
-                cl.append(("region_refers_to_renumbered_subregions", L.And(len(f["subregion_numbers"]) == (1 if var["sub"] else 0),
+                cl.append(("region_refers_to_renumbered_subregions", L.And(len(f["subregion_numbers"]) == (1 if var["sub"] or subonly else 0),
                                                                        [s == 1 for s in f["subregion_numbers"]])))
             if f["subregion_number"] is not None:
                 cl.append(("subregion_renumbered_from_one", f["subregion_number"] == 1))
